@@ -46,6 +46,9 @@ R2 = {
         {"id": "g-dbg", "language": "js", "rule": {"pattern": "debugger"},
          "fix": {"template": "", "expandEnd": {"regex": ";"}}},
         {"id": "h-span", "language": "html", "rule": {"pattern": "<span>$$$A</span>"}, "fix": "<b>$$$A</b>"},
+        # the replacement text EQUALS the matched node's text, only the expansion changes the file
+        {"id": "t-comma", "language": "js", "rule": {"pattern": "zed"},
+         "fix": {"template": "zed", "expandEnd": {"regex": "^,$"}}},
         # both expansions: the edits of neighbouring array elements overlap pairwise IN A CHAIN
         # (e1-e2, e2-e3, e3-e4, ...): an edit that only overlaps a DROPPED edit must still be applied
         {"id": "k-num", "language": "js", "rule": {"kind": "number", "inside": {"kind": "array"}},
@@ -76,6 +79,11 @@ PROJECTS = {
     #     same-line, by id, by another rule's id = not suppressed, file-level is not used here)
     "suppressed": {
         "s.js": "// ast-grep-ignore\nfoo(1);\nfoo(2); // ast-grep-ignore: a-foo\nbar(3); // ast-grep-ignore: a-foo\n// ast-grep-ignore: b-bar, c-qux\nfoo(bar(4)); qux(5)\nfoo(6)\n",
+    },
+    # (9) a fix whose template reproduces the match and whose expansion deletes the comma after it;
+    #     and a rewrite that changes nothing at all (`run-noop`)
+    "same-text": {
+        "t.js": "x = [a, zed,];\ny = [zed];\nfoo(1)\n",
     },
     # (8) chains of pairwise overlapping edits
     "chain": {
